@@ -531,3 +531,7 @@ REGISTRY["C19"]["partial_clauses"][0] = (
     "defining integral because Mathlib has none); (iii) the crosswind Gaussian has unit mass (km_crosswind_gaussian_unit_mass). Not assembled in Lean: that the iterated integral "
     "of (i) equals Q(mu, xi/X) times the Gaussian's mass within +-W and tends to (ii) as W grows (Fubini + dominated convergence); the oracle checks the number against "
     "scipy.special.gammaincc with W = 8 sigma(X)")
+
+# C16 consumers: the time-series driver's i-th result is step i's own single run (label, forcing entries), one result per step; every tower alike
+REGISTRY["C16"]["theorems"] += T("Proofs.C16b", "BLDFM.C16", ["timeseries_step_spec", "multitower_series_length"]) \
+    + T("Proofs.C14", "BLDFM.C14", ["timeseries_eq_singles", "multitower_eq_singles"])
